@@ -130,6 +130,9 @@ type Spec struct {
 	PrepareOnly bool
 	// AfterPrepare, if set, is called on the main client goroutine with the prepared workflow.
 	AfterPrepare func(wf workflow.ExecutableWorkflow)
+	// Body, if set, replaces the Prepare/Execute sequence: it runs on the env/main goroutine and may
+	// start further named goroutines (class P and E checks drive the engine's lower-level APIs).
+	Body func(b *BodyCtx)
 	// Watch is passed to the scheduler (see simrt.Sim.Watch).
 	Watch func(site string) bool
 	// RealTimeout aborts the process (exit 2) when one run takes longer in real time.
@@ -147,6 +150,25 @@ type ClientSpec struct {
 	CancelAtDecision int64 `json:"cancel_at_decision,omitempty"`
 	// CancelAfterUS, when >0, cancels after this much simulated time instead.
 	CancelAfterUS int64 `json:"cancel_after_us,omitempty"`
+}
+
+// BodyCtx is what a custom body gets.
+type BodyCtx struct {
+	Sim *simrt.Sim
+	W   *world.World
+	Env *Env
+}
+
+// Go starts a named environment goroutine and returns a channel closed when it ends.
+func (b *BodyCtx) Go(name string, f func()) <-chan struct{} {
+	done := make(chan struct{})
+	go func() {
+		defer simrt.Enter(name)()
+		defer close(done)
+		defer b.Sim.Notify()
+		b.Sim.Protect(name, f)
+	}()
+	return done
 }
 
 // Result is everything the oracles may look at.
@@ -248,6 +270,10 @@ func Run(t *testing.T, sp Spec) (res *Result) {
 				env, err := NewEnv(w)
 				if err != nil {
 					prepErr.Store("env: " + err.Error())
+					return
+				}
+				if sp.Body != nil {
+					sp.Body(&BodyCtx{Sim: s, W: w, Env: env})
 					return
 				}
 				files := map[string][]byte{}
